@@ -40,8 +40,11 @@ def cases(tier, seed, rng):
     gate_triples = cube + (extremes if tier == 'thorough' else extremes[::7])
     for v in dict.fromkeys(gate_triples):
         for mode in ('ro', 'rw', 'ow'):
-            for force in (0, 1):
-                if mode == 'ow' and (force == 1 or v not in cube[::9]):
+            # the flag word: Force alone, nothing, and Force together with / without other bits
+            for force in (0, 1, 3, 2, 255, 254):
+                if mode == 'ow' and (force != 0 or v not in cube[::9]):
+                    continue
+                if force > 1 and v not in cube[::2]:
                     continue
                 out.append(Case(['vgate [%d,%d,%d] = = %s %d' % (v[0], v[1], v[2], mode, force)]))
     # files without an id attribute: required from the id-gate version on
